@@ -3,7 +3,8 @@ CONF = {
     'interesting': ['compression-pointer', 'pointer-loop', 'truncated-prefix-of-valid', 'rdlength-extreme', 'opt-record',
                     'residue-records', 'dirty-buffer', 'no-fixlengths', 'error-residue', 'preserved-labels', 'label-length',
                     'name-length', 'public-fields', 'serialize-error', 'roundtrip-checked'],
-    'rule': 'DNS messages built field by field by the harness (header, 0..2 questions, 0..4 records of the modelled RDATA types '
+    'rule': 'DNS messages built field by field by the harness (header, 0..2 questions, 0..4 records of the 17 RDATA types with a decoder '
+            '(A AAAA NS CNAME PTR MX TXT HINFO SOA SRV OPT URI DNSKEY NAPTR SVCB HTTPS RRSIG) and of types without one, '
             'split over the three sections; names as label sequences, with backward compression pointers, pointer-only names, '
             'labels holding a literal dot or backslash, 63-byte labels), every truncation length, every count forced to 0,1,+-1,'
             '65535, every RDLENGTH forced to 0,1,2,3,4,16,65535,+-1 and the exact rest of the message +-1; pointer targets '
@@ -18,7 +19,10 @@ CONF = {
                     'Go int unbounded (sizes < 2^62); fmt/reflect/strings/net.IP.String total on non-nil values',
                     'decoded names are observed as values: the aliasing of DNS.buffer is argued in the header of coq/Model/LdnsModel.v'],
     'trusted_base': ['model: coq/Model/LdnsModel.v is a hand transcription of layers/dns.go:333-421,485-511,522-810,814-963,1056-1235,'
-                     '1267-1278,1350-1449 of the repaired tree'],
-    'explanation': 'Per-layer theorems C19/C05/C06/C07/C01 about the Gallina model of the DNS codec; the correspondence run ties the '
-                   'model to the Go code on every observable.',
+                     '1267-1348,1350-1529,1572-1607,1662-1675,1691-1698,1726-1765,1796-1831 of the repaired tree (two fix: commits)',
+                     'renderers: DNSResourceRecord.String 1237-1265 and the other String methods contain no partial operation (argued in '
+                     'the model at render_panics); exercised on every decoded state by the harness'],
+    'explanation': 'Per-layer theorems C19/C05/C06/C07/C01 about the Gallina model of the DNS codec (all RDATA types of dns.go); the '
+                   'serializer is proved equal to a wire function of the value (C07_dns_wire), which the round-trip proof decodes; the '
+                   'correspondence run ties the model to the Go code on every observable.',
 }
